@@ -202,6 +202,50 @@ func suiteBridgeLife(e *vh.Env) {
 		e.Count("server-unreachable-at-dial")
 	}
 	bridgeRefusedHandshake(e)
+	if e.Thorough() && e.Want(3000) {
+		bridgeStalledHandshake(e)
+	}
+}
+
+// bridgeStalledHandshake (thorough tier, about 45 s): the peer accepts the TCP connection of the frontend's websocket
+// dial, swallows the upgrade request and never answers.  The dial must be given up within bounded time, otherwise
+// the bridged client never observes end-of-stream and the frontend keeps its sockets for ever.
+func bridgeStalledHandshake(e *vh.Env) {
+	ln, err := net.Listen("tcp", "127.0.0.1:0")
+	if err != nil {
+		return
+	}
+	defer ln.Close()
+	go func() {
+		for {
+			c, err := ln.Accept()
+			if err != nil {
+				return
+			}
+			go io.Copy(io.Discard, c) // never answers
+		}
+	}()
+	u, _ := url.Parse("ws://" + ln.Addr().String() + connection.StreamingPath)
+	done := make(chan error, 1)
+	start := time.Now()
+	go func() {
+		c, err := connection.DialWebsocket(context.Background(), u, nil)
+		if err == nil {
+			c.Close()
+		}
+		done <- err
+	}()
+	select {
+	case err := <-done:
+		e.Observe("stalled_handshake_given_up_after_s", int(time.Since(start).Seconds()))
+		if err == nil {
+			e.Fail("C16:stalled-handshake-succeeded", "DialWebsocket reported success against a peer that never answered", 3000, nil, nil, nil)
+		}
+	case <-time.After(60 * time.Second):
+		e.Fail("C16:eof-not-propagated:stalled-handshake", "the bridge peer accepted the frontend's TCP connection and never answered the websocket handshake; the dial was still pending after 60 s, so the bridged client never observes end-of-stream and the frontend keeps its sockets", 3000, nil, nil, nil)
+	}
+	e.Eval("stalled-handshake", true)
+	e.Count("stalled-handshake")
 }
 
 // bridgeRefusedHandshake: a client asks for a bridged connection with a websocket handshake the backend refuses
